@@ -165,3 +165,5 @@ func parallel(n, w int, f func(i int)) {
 }
 
 func strs(ss ...string) []string { return ss }
+
+func jsonUnmarshal(b []byte, v interface{}) error { return json.Unmarshal(b, v) }
